@@ -193,6 +193,13 @@ def _check_body(ctx, res) -> None:
                 if n.kind == "stmt" and isinstance(n.ast, ast.Assign) and n.ast.value is c:
                     holder = (n, n.ast.targets[0])
             construct = f"{f.qualname.split('.', 2)[-1]}"
+            if holder is None and f.name.startswith("_") and not f.name.startswith("__") and any(
+                    isinstance(r_, ast.Return) and r_.value is c for r_ in ast.walk(common.inlined(idx, f))) and any(
+                    call_name(c2) == f.name for g2 in idx.functions.values() if g2.unit is f.unit and g2 is not f for c2 in calls_in(g2.node)):
+                # a private reader that only hands the data on (`return ...read_data(name)`): its callers are the consumers, and they are
+                # analysed with this helper read in place
+                n_cons -= 1
+                continue
             if holder is None:
                 res.undecided("R18.2", construct, f"{f.unit.rel}:{c.lineno}", "read_data result is not bound to a name")
                 continue
